@@ -43,7 +43,7 @@ const (
 
 func classifyErr(msg string) int {
 	switch {
-	case strings.HasPrefix(msg, "Tried to Read 1 Byte"):
+	case strings.HasPrefix(msg, "Tried to Read 1 Byte.."):
 		return 1
 	case strings.HasPrefix(msg, "Tried to Read"):
 		return 2
